@@ -174,6 +174,22 @@ func fill(v reflect.Value, c *fillCtx, depth int) {
 			f := v.Field(i)
 			f.FieldByName("IsSet").SetBool(true)
 			fill(f.FieldByName("Value"), c, depth+1)
+			// a discriminated union of the response corpus: the variant's `kind` must select it —
+			// its own name, or one of the mapping keys k1<T> .. kn<T> of a variant called <T>M<n>
+			if val := f.FieldByName("Value"); val.Kind() == reflect.Struct {
+				if k := val.FieldByName("Kind"); k.IsValid() && k.Kind() == reflect.String {
+					tn := val.Type().Name()
+					keys := []string{tn}
+					if i := strings.LastIndex(tn, "M"); i > 0 {
+						if n, err := strconv.Atoi(tn[i+1:]); err == nil {
+							for j := 1; j <= n; j++ {
+								keys = append(keys, fmt.Sprintf("k%d%s", j, tn))
+							}
+						}
+					}
+					k.SetString(keys[c.r.intn(len(keys))])
+				}
+			}
 			return
 		}
 		for i := 0; i < t.NumField(); i++ {
